@@ -4,6 +4,7 @@ CONSTANT MinN = 1
 CONSTANT Variants <- AllVariants
 CONSTANT ClkAll = FALSE
 CONSTANT D = 0
+CONSTANT NRand = 0
 CONSTANT Rot = FALSE
 VIEW View
 INVARIANT TypeOK
